@@ -94,10 +94,10 @@ type RefClient struct {
 	DropGroup map[string][]string
 	// LostInStray maps a rid to the rid of the stray event whose (ignored)
 	// frame carried its data.
-	LostInStray    map[string]string
+	LostInStray map[string]string
 	// LostAfterGet: the stray event that carried the rid was one flushed after
 	// a get response (finding K)
-	LostAfterGet map[string]bool
+	LostAfterGet   map[string]bool
 	Unsubs         []UnsubCheck
 	Debug          bool
 	Redundant      int // resources re-sent although already held
